@@ -109,13 +109,14 @@ with g_ext_loop (fuel : nat) (extend : bool) (it : sit) (back : sit) : bool * si
     end
   end.
 
-(* the `for c in i` loop of split (321-343): the list of (split position, offset) *)
-Fixpoint g_split_loop (fuel : nat) (extend : bool) (it : sit) (acc : list (nat * nat)) : list (nat * nat) :=
+(* the `for c in i` loop of split (321-345): the list of (split position, offset), and whether the pattern ends with a
+   backslash that escapes nothing (the loop then drops that last character from the pattern) *)
+Fixpoint g_split_loop (fuel : nat) (extend : bool) (it : sit) (acc : list (nat * nat)) : list (nat * nat) * bool :=
   match fuel with
-  | O => rev acc
+  | O => (rev acc, false)
   | S f =>
     match snext it with
-    | None => rev acc
+    | None => (rev acc, false)
     | Some (c, it1) =>
       let nested : bool * sit :=
         if extend && ch_in c ext_types then g_ext f extend it1 else (false, it1) in
@@ -128,7 +129,7 @@ Fixpoint g_split_loop (fuel : nat) (extend : bool) (it : sit) (acc : list (nat *
               if N.eqb v cSL then g_split_loop f extend it2 ((sidx it2 - 2, 1) :: acc)
               else g_split_loop f extend it2 acc
           | Some (inl (None, it2)) => g_split_loop f extend it2 acc
-          | _ => g_split_loop f extend it1 acc             (* StopIteration: rewind to just after the backslash *)
+          | _ => (fst (g_split_loop f extend it1 acc), true)   (* StopIteration: rewind to just after the backslash *)
           end
         else if N.eqb c cSL then g_split_loop f extend it1 ((sidx it1 - 1, 0) :: acc)
         else if N.eqb c cLB then
@@ -180,12 +181,13 @@ Inductive gserr : Set := GValue.
 (* split (302-385), Unix rules *)
 Definition gsplit (flags : Z) (is_bytes : bool) (p0 : str) : list gpart + gserr :=
   let cf := mk_gscfg flags is_bytes in
-  let p := if is_negative flags p0 then take 1 p0 else p0 in      (* "isn't really used" (lines 176-180) *)
-  let rooted := starts_with [cSL] p in
+  let p1 := if is_negative flags p0 then take 1 p0 else p0 in      (* "isn't really used" (lines 176-180) *)
+  let rooted := starts_with [cSL] p1 in
   let parts0 := if rooted then [gpart_lit [cSL] true true] else [] in
   let start1 := if rooted then 1 else 0 in
-  let it0 := {| sidx := start1; srest := drop start1 p |} in
-  let splits := g_split_loop (2 * length p + 2) (gs_extend cf) it0 [] in
+  let it0 := {| sidx := start1; srest := drop start1 p1 |} in
+  let '(splits, dangling) := g_split_loop (2 * length p1 + 2) (gs_extend cf) it0 [] in
+  let p := if dangling then removelast p1 else p1 in
   let '(start1', parts1) := g_store_all cf p splits start1 parts0 in
   let parts2 :=
     if start1' <=? length p then
